@@ -445,6 +445,31 @@ def _parse_case(i, mode):
 
 CONDITIONS.append({"fn": "c02_parse", "quick": 90, "thorough": 240, "sel_only": True})
 
+# ---- the shared corpus with the odd-typed data sets, in every mode: only Liquid errors escape ----------------------
+from harness import corpus as _corpus  # noqa: E402
+
+_CENVS = {m: _corpus.make_env(Env, tolerance=m) for m in (Mode.STRICT, Mode.WARN, Mode.LAX)}
+
+
+def _corpus_check(w2, w1, leaf, d):
+    import warnings
+    bad = {}
+    for m, env in _CENVS.items():
+        with warnings.catch_warnings():
+            warnings.simplefilter("ignore")
+            t = _corpus.template(env, w2, w1, leaf)
+            if t is None:
+                continue
+            r = _corpus.outcome(lambda: t.render(**_corpus.data(d)))
+        if r[0] == "other":
+            bad[str(m)] = r[1]
+    return bad or None
+
+
+c02_corpus, _det = _corpus.mk_condition("c02_corpus", _corpus_check)
+DETAIL["c02_corpus"] = _det
+CONDITIONS.append({"fn": "c02_corpus", "quick": 90, "thorough": 200, "sel_only": True, "bounds": _corpus.BOUNDS + ", STRICT/WARN/LAX"})
+
 ASSUMPTIONS = [
     "symbolic floats are explored for bug-hunting only (CrossHair's float model is not IEEE-exact): no condition that depends on them is reported confirmed",
     "one argument slot may be replaced by a value from a 20-element pool of awkward values (inf, nan, 10**400, numeric-looking / percent / non-ASCII / invalid base64 strings, list, dict, range, nested and mixed lists)",
